@@ -58,6 +58,7 @@ type Plan struct {
 	Probes   []ClientOp `json:"probes,omitempty"` // Get queries issued at quiescence
 	Store    *StorePlan `json:"store,omitempty"`  // C15: store-level scenario
 	Sub      *SubPlan   `json:"sub,omitempty"`    // C19: subscribe-stream scenario
+	V3       *V3Plan    `json:"v3,omitempty"`     // C20: v3 workload
 	Sweep    *SweepSpec `json:"sweep,omitempty"`  // C07: fault position relative to the crash-free run (resolved by the runner)
 	Sched    Sched      `json:"sched"`
 }
